@@ -12,6 +12,17 @@ theorem and_1 (x : Int) : PyInt.and x 1 = x % 2 := and_one x
 theorem and_0xFF (x : Int) : PyInt.and x 255 = x % 256 := and_255 x
 theorem and_0xFFFFFFFF (x : Int) : PyInt.and x 4294967295 = x % 4294967296 := by simpa using and_mask x 32
 
+theorem and_3 (x : Int) : PyInt.and x 3 = x % 4 := by simpa using and_mask x 2
+theorem and_7 (x : Int) : PyInt.and x 7 = x % 8 := by simpa using and_mask x 3
+theorem and_15 (x : Int) : PyInt.and x 15 = x % 16 := by simpa using and_mask x 4
+theorem and_31 (x : Int) : PyInt.and x 31 = x % 32 := by simpa using and_mask x 5
+theorem and_63 (x : Int) : PyInt.and x 63 = x % 64 := by simpa using and_mask x 6
+theorem and_1023 (x : Int) : PyInt.and x 1023 = x % 1024 := by simpa using and_mask x 10
+theorem and_2047 (x : Int) : PyInt.and x 2047 = x % 2048 := by simpa using and_mask x 11
+theorem and_4095 (x : Int) : PyInt.and x 4095 = x % 4096 := by simpa using and_mask x 12
+theorem and_0xFFFF (x : Int) : PyInt.and x 65535 = x % 65536 := by simpa using and_mask x 16
+theorem and_0xFFFFF (x : Int) : PyInt.and x 1048575 = x % 1048576 := by simpa using and_mask x 20
+
 /-- a single-bit mask tests one binary digit -/
 theorem and_bit (x : Int) (k : Nat) : PyInt.and x (2 ^ k) = (x / 2 ^ k % 2) * 2 ^ k := by
   rw [and_pow]
@@ -23,6 +34,7 @@ theorem and_bit (x : Int) (k : Nat) : PyInt.and x (2 ^ k) = (x / 2 ^ k % 2) * 2 
     simp [h0]
 theorem and_64 (x : Int) : PyInt.and x 64 = (x / 64 % 2) * 64 := by simpa using and_bit x 6
 theorem and_128 (x : Int) : PyInt.and x 128 = (x / 128 % 2) * 128 := by simpa using and_bit x 7
+theorem and_2048 (x : Int) : PyInt.and x 2048 = (x / 2048 % 2) * 2048 := by simpa using and_bit x 11
 
 /-- `b | 0x80` on a 7-bit value -/
 theorem or_128 {b : Int} (h0 : 0 ≤ b) (h1 : b < 128) : PyInt.or b 128 = b + 128 := by
@@ -35,6 +47,8 @@ theorem or_128 {b : Int} (h0 : 0 ≤ b) (h1 : b < 128) : PyInt.or b 128 = b + 12
     `x % 128`, `x >> 1` and `x // 2`, `x << 1` and `x * 2` normalise to the same term) -/
 macro "py_norm" : tactic => `(tactic| try simp only [Proofs.T1.fmod_pos, Proofs.T1.fdiv_pos, Int.reduceLT,
   Proofs.T1.and_1, Proofs.T1.and_127, Proofs.T1.and_0xFF, Proofs.T1.and_0xFFFFFFFF, Proofs.T1.and_64, Proofs.T1.and_128,
+  Proofs.T1.and_3, Proofs.T1.and_7, Proofs.T1.and_15, Proofs.T1.and_31, Proofs.T1.and_63, Proofs.T1.and_1023, Proofs.T1.and_2047,
+  Proofs.T1.and_4095, Proofs.T1.and_0xFFFF, Proofs.T1.and_0xFFFFF, Proofs.T1.and_2048,
   Model.PyRt.shrN, Model.PyRt.shlN, Int.reducePow, Int.pow_one, Int.reduceNeg])
 
 end Proofs.T1
